@@ -32,7 +32,8 @@ REQUIRED = ["template_none", "template_blank", "template_sparse", "template_with
             "chart_template_empty", "chart_template_sparse", "animations_alias", "ssc_only_key_in_source", "version_key_in_source",
             "negative_bpm_or_stop", "source_with_charts", "delays_or_warps", "zero_length_stop", "chart_template_empty_timing_keys",
             "chart_template_spells_its_notes_NOTES2", "negative_row_followed_by_a_row_for_the_same_beat", "template_with_notes2_chart",
-            "source_is_an_instance_of_a_subclass_of_SMSimfile"]
+            "source_is_an_instance_of_a_subclass_of_SMSimfile", "negative_value_that_is_minus_zero_as_a_float",
+            "source_chart_with_extra_components"]
 
 SSC_ONLY = ["VERSION", "ORIGIN", "LABELS", "MUSICLENGTH", "LASTSECONDHINT", "PREVIEWVID", "JACKET", "CDIMAGE", "DISCIMAGE", "PREVIEW",
             "COMBOS", "SPEEDS", "SCROLLS", "FAKES", "WARPS", "TIMESIGNATURES"]
@@ -61,6 +62,11 @@ def timing_ops(rng, negative):
                 v = 0.0  # a zero-length stop / delay is well-formed and not negative
             if i == j:
                 v = -v
+                if rng.random() < 0.15:
+                    # negative, but so small that it is -0.0 as a float
+                    out.append(f"{k / 48:.3f}=" + rng.choice(["-1e-400", "-0." + "0" * 330 + "1", "-1E-350"]))
+                    k += rng.randint(1, 400)
+                    continue
             out.append(f"{k / 48:.3f}={v:.3f}")
             if i == j and rng.random() < 0.4:
                 # the negative row is followed by a non-negative row written for the very same beat (same text)
@@ -226,6 +232,8 @@ def check(ctx, case):
     if case["negative"]:
         txt = sm.get("BPMS" if case["negative"] == "bpm" else "STOPS") or ""
         rows = [r.strip() for r in txt.split(",")]
+        if any("e-" in r.lower() or "=-0." + "0" * 300 in r for r in rows):
+            ctx.feat("negative_value_that_is_minus_zero_as_a_float")
         if any(r.split("=")[1].startswith("-") and i + 1 < len(rows) and rows[i + 1].split("=")[0] == r.split("=")[0] for i, r in enumerate(rows) if "=" in r):
             ctx.feat("negative_row_followed_by_a_row_for_the_same_beat")
     sm_before = copy.deepcopy(sm)
@@ -312,6 +320,23 @@ def check(ctx, case):
         ctx.expect(ssc_state(st) == st_state0, "unmodified:simfile-template-changed", before=repr(st_state0)[:300], after=repr(ssc_state(st))[:300])
     if ct is not None:
         ctx.expect(list(ct.items()) == ct_state0, "unmodified:chart-template-changed")
+    # ... also through instance attributes (e.g. a chart's list of extra NOTES components)
+    def reach(o):
+        out = {}
+        for name, v in list(vars(o).items()) if hasattr(o, "__dict__") else []:
+            if isinstance(v, (list, dict, set)):
+                out[id(v)] = f"{type(o).__name__}.{name}"
+        return out
+
+    theirs = {}
+    for o in [sm] + list(sm.charts) + ([st] + list(st.charts) if st is not None else []) + ([ct] if ct is not None else []):
+        theirs.update(reach(o))
+    for o in [res] + list(res.charts):
+        for i_, where in reach(o).items():
+            if i_ in theirs:
+                ctx.violation("sharing:result-shares-an-attribute-object-with-source-or-template", {"result": where, "other": theirs[i_]})
+    if any(getattr(c, "extradata", None) for c in sm.charts):
+        ctx.feat("source_chart_with_extra_components")
     ctx.mon("no_sharing")
     others = [sm] + list(sm.charts) + ([st] + list(st.charts) if st is not None else []) + ([ct] if ct is not None else [])
     mine = [res, res.charts] + list(res.charts)
